@@ -9,7 +9,7 @@ Workload (rv/ref/c07_ctrl.py `Session`): a case is 12-18 episodes; they run as o
 contradiction the rest of the budget continues on a freshly elaborated device (at most 3 devices per case).  An episode is
 0-2 pieces of *junk* (SETUP only, SETUP twice, data stage left after 1..n packets with/without ACK, data stage
 without status stage, status OUT token without data packet, status ZLP never ACKed, wrong-direction status,
-non-ZLP status data, PING, stray IN/OUT tokens, OUT-data request, vendor/class/unknown requests,
+non-ZLP status data, PING, stray IN/OUT tokens, IN tokens after the last packet of a data stage, OUT-data request, vendor/class/unknown requests,
 GET_DESCRIPTOR with wLength 0, bus reset in the middle of a transfer) followed by one complete transfer of a
 supported request (GET_DESCRIPTOR with many wLength choices, GET_STATUS, GET_CONFIGURATION, SET_CONFIGURATION,
 SET_ADDRESS, CLEAR_FEATURE(ENDPOINT_HALT)) done the way a real host does it, including: control data packet not
@@ -27,15 +27,28 @@ stage in the opposite direction (OUT ZLP -> ACK, or IN -> DATA1 ZLP when there i
 DATA packet on endpoint 0 only in the data stage of a device-to-host request with wLength > 0 (judged for
 every IN token on endpoint 0, junk included); foreign traffic changes none of this.
 
-Mechanism names: a contradiction is named by its symptom (`data_stage_in_not_answered`, `status_in_not_zlp_data1`,
-`data_stage_wrong_data`, ...) except for three history patterns which have their own names because they are
-open findings on the unchanged tree (see findings/C07.md):
-  stale_request_state_after_abandoned_transfer - the failing transfer follows a transfer that was left unfinished
+Also judged (clause "tokens for other endpoints never ... disturb"): an IN/OUT to an endpoint number that does not
+exist gets no answer, the bulk IN endpoint's packets are well formed and carry only its 0xA5 bytes, a bulk OUT gets a
+handshake - a control endpoint that acts on another endpoint's token shows up there.
+
+Mechanism names: a contradiction is named by its symptom (`setup_not_acked`, `data_stage_in_not_answered`,
+`data_stage_wrong_toggle/_length/_data/_packet`, `status_in_not_zlp_data1`, `status_in_not_answered`,
+`status_out_not_acked`, `data_sent_outside_in_data_stage`, `token_of_unused_endpoint_answered`,
+`foreign_in_transaction_corrupted`, ...) except for four history patterns which have their own names because they are
+open findings on the unchanged tree (findings/C07.md); the name is decided from the wire history only:
+  in_past_end_wedges_descriptor_handler        - the host sent an IN after the last packet of a GET_DESCRIPTOR data
+                                                 stage earlier on this device
+  stale_request_state_after_abandoned_transfer - a transfer was left unfinished earlier on this device (cleared by a
+                                                 transfer that completes like the reference followed by a bus reset)
   foreign_ack_advances_control_data            - an ACK of another transaction was on the wire while an ep0 data
                                                  packet was not ACKed
   foreign_ack_completes_nodata_request         - an ACK of another transaction was on the wire between the SETUP
                                                  and the status stage of SET_ADDRESS/SET_CONFIGURATION/CLEAR_FEATURE
+Consequence: while `stale_request_state_after_abandoned_transfer` is open, any other defect that shows only after an
+abandoned transfer is reported under that name (the proposed fix removes the finding; mutation runs on top of the fix
+show such defects are detected).
 After a contradiction nothing more is judged on that device (its state is unknown); the case continues on a new one.
+Thorough tier: 30 % of the devices use luna's 60 MHz full-speed timing tables (`always_fs=False`, `full_speed_only`).
 
 Not judged: content of GET_STATUS (length and PID only); STALL behaviour for unsupported requests (C10); data
 content rules at multiples of the packet size (C09: such lengths are not generated); corrupted packets (C02/C06:
@@ -60,7 +73,7 @@ REQUIRED_BINS = [
     "ctrl_data_unacked_then_retried", "status_zlp_unacked_then_retried",
     "junk_setup_only", "junk_double_setup", "junk_partial_data", "junk_data_no_status", "junk_status_token_only",
     "junk_status_zlp_unacked", "junk_wrong_direction", "junk_ping", "junk_stray_tokens", "junk_out_data_request",
-    "junk_reset_mid_transfer", "junk_wrong_status_data",
+    "junk_reset_mid_transfer", "junk_wrong_status_data", "junk_in_past_end",
     "setup_after_unfinished_data_in", "setup_after_unfinished_status_in", "setup_after_unfinished_status_out",
     "setup_after_unfinished_data_out",
     "interleave_after_setup", "interleave_between_data_packets", "interleave_before_status", "interleave_before_retry",
@@ -68,6 +81,7 @@ REQUIRED_BINS = [
     "foreign_bulk_in_ack", "foreign_bulk_in_noack", "foreign_bulk_out", "foreign_noep_in", "foreign_noep_out",
     "foreign_other_dev_in", "foreign_other_dev_out", "foreign_other_dev_setup", "foreign_sof", "foreign_other_ep_ping",
     "foreign_ack_while_ctrl_data_unacked", "foreign_ack_before_nodata_status", "in_token_outside_data_stage",
+    "in_token_past_end_of_descriptor",
     "clean_history_transfer", "transfer_after_abandoned",
 ]
 REQUIRED_EVENTS = ["setups_judged", "ep0_in_tokens_judged", "data_packets_judged", "status_stages_judged",
@@ -78,7 +92,7 @@ ASSUMPTIONS = [
     "no CRC-damaged packets are generated (C02/C06), no SETUP token to endpoints other than 0",
     "descriptor lengths and min(wLength, length) are never non-zero multiples of 64 when a terminating ZLP would be needed (C09)",
     "after the first contradiction nothing more is judged on that device; the case continues on a freshly elaborated one",
-    "the three history-based mechanism names are decided from the wire history only (abandoned transfer before / foreign ACK inside the failing transfer)",
+    "the four history-based mechanism names are decided from the wire history only (abandoned transfer before / foreign ACK inside the failing transfer)",
 ]
 TIMEOUT = {"quick": 900, "thorough": 4 * 3600}
 
